@@ -129,8 +129,8 @@ class Filter(object):
         """
         if force is None:
             force = []
-        # features known during the previous update
-        features_old = list(getattr(self, "features", []))
+        # features known during the previous successful update
+        features_old = list(getattr(self, "_features_filtered", []))
         # re-initialize important parameters
         self._init_rtdc_ds(rtdc_ds)
 
@@ -273,3 +273,4 @@ class Filter(object):
 
         # Actual filtering is then done during plotting
         self._old_config = rtdc_ds.config.copy()["filtering"]
+        self._features_filtered = list(self.features)
